@@ -226,6 +226,13 @@ def ev(node, row):
         if x is None or lo is None or hi is None:
             return None
         return lo <= x <= hi
+    if t in (ast.In, ast.NotIn) and isinstance(node.right, ast.Select):
+        # membership in the sub-query's single output column; NULL when x is NULL or no row (C08)
+        x = ev(node.left, row)
+        vals = row['$subquery'](node.right)
+        if x is None or not vals:
+            return None
+        return (x in vals) if t is ast.In else (x not in vals)
     if isinstance(node, ast.BinaryOp):
         return binop(t, ev(node.left, row), ev(node.right, row))
     if t is ast.Function:
